@@ -37,10 +37,10 @@ theorem inv_step {st : State} {op : Op} (hinv : Inv st) (hb : (getLastOrderID st
 theorem lastOrderID_init : getLastOrderID init.kv = 0 := rfl
 
 /-- the (id, type byte) pairs a scan yields, traced back to the scanned entries -/
-theorem mem_iterateOrderIndex {s : Store} {pre : Bytes} {id : UInt64} {b : Nat} :
-    (id, b) ∈ iterateOrderIndex s pre ↔
+theorem mem_iterateOrderIndexPreFix {s : Store} {pre : Bytes} {id : UInt64} {b : Nat} :
+    (id, b) ∈ iterateOrderIndexPreFix s pre ↔
       ∃ e ∈ prefixStore s pre, e.2 = .tbyte b ∧ parseIndexKeySuffixOrderID e.1 = some id := by
-  unfold iterateOrderIndex
+  unfold iterateOrderIndexPreFix
   rw [List.mem_filterMap]
   constructor
   · rintro ⟨e, he, hf⟩
@@ -63,10 +63,10 @@ theorem scan_entry_live {s : Store} (hinv : IndexInv s) {pre : Bytes} {e : Entry
 
 /-- each lookup lists an order at most once: the ids a scan of an order-index prefix yields are
 pairwise different -/
-theorem lookup_ids_nodup {s : Store} (hinv : IndexInv s) (pre : Bytes)
+theorem lookup_ids_nodup_preFix {s : Store} (hinv : IndexInv s) (pre : Bytes)
     (hidx : ∀ t, isOrderIndexKey (pre ++ t) = true) (hpre : pre.head? ≠ some 9) :
-    ((iterateOrderIndex s pre).map (·.1)).Nodup := by
-  unfold iterateOrderIndex
+    ((iterateOrderIndexPreFix s pre).map (·.1)).Nodup := by
+  unfold iterateOrderIndexPreFix
   rw [List.Nodup, List.pairwise_map]
   have hs := sorted_prefixStore s pre
   have hs' : (prefixStore s pre).Pairwise (fun a b => a ∈ prefixStore s pre ∧ b ∈ prefixStore s pre ∧ a.1 ≠ b.1) := by
@@ -133,6 +133,29 @@ theorem lookup_ids_nodup {s : Store} (hinv : IndexInv s) (pre : Bytes)
          List.cons_append, List.cons.injEq] at h1 h2
        omega)
   exact List.append_cancel_left hkey
+
+/-- the current scan is the historical one restricted to the entries with an 8-byte suffix -/
+theorem mem_iterateOrderIndex {s : Store} {pre : Bytes} {id : UInt64} {b : Nat} :
+    (id, b) ∈ iterateOrderIndex s pre ↔
+      ∃ e ∈ prefixStore s pre, e.1.length = 8 ∧ e.2 = .tbyte b ∧ parseIndexKeySuffixOrderID e.1 = some id := by
+  unfold iterateOrderIndex
+  rw [List.mem_filterMap]
+  constructor
+  · rintro ⟨e, he, hf⟩
+    obtain ⟨he1, he2⟩ := List.mem_filter.mp he
+    refine ⟨e, he1, by simpa using he2, ?_⟩
+    split at hf
+    · next b' id' hv hp => cases hf; exact ⟨hv, hp⟩
+    · cases hf
+  · rintro ⟨e, he, h8, hv, hp⟩
+    exact ⟨e, List.mem_filter.mpr ⟨he, by simpa using h8⟩, by rw [hv, hp]⟩
+
+theorem lookup_ids_nodup {s : Store} (hinv : IndexInv s) (pre : Bytes)
+    (hidx : ∀ t, isOrderIndexKey (pre ++ t) = true) (hpre : pre.head? ≠ some 9) :
+    ((iterateOrderIndex s pre).map (·.1)).Nodup := by
+  refine List.Nodup.sublist ?_ (lookup_ids_nodup_preFix hinv pre hidx hpre)
+  unfold iterateOrderIndex iterateOrderIndexPreFix
+  exact (List.Sublist.filterMap _ (List.filter_sublist)).map _
 
 theorem firstIter_length_le (ps : List Entry) (rev : Bool) (after : UInt64) : (firstIter ps rev after).length ≤ ps.length := by
   unfold firstIter iter
